@@ -116,12 +116,25 @@ def gen_case(rng, tier, i):
         classes.append('telecentric')
     elif rng.random() < 0.3:
         classes = L.decorate(spec, rng, a, freeform_p=0.2)
+    if spec['obj_t'] != 'inf' and spec['field_type'] == 'object_height' and rng.random() < 0.25:
+        # curved object surface: the field point lies ON the object surface (height Hy x max field, z = vertex + sag)
+        fm_ = max(abs(f[0]) for f in spec['fields'])
+        spec['obj_radius'] = round(float(rng.choice([-1.0, 1.0]) * rng.uniform(1.5, 8.0) * max(fm_, 0.5)), 6)
+        classes.append('curved-object-surface')
     vig = False
     if not tele and rng.random() < 0.3 and len(spec['fields']) > 1:
         for f in spec['fields'][1:]:
             f[1], f[2] = round(float(rng.uniform(0, 0.5)), 4), round(float(rng.uniform(0, 0.5)), 4)
         vig = True
         classes.append('vignetting-factors')
+        if len(spec['fields']) >= 2 and rng.random() < 0.5:
+            # fields entered in non-ascending order (the order of entry is not part of the meaning of a field)
+            f_ = spec['fields']
+            perm_ = [int(j) for j in rng.permutation(len(f_))]
+            if perm_ == sorted(perm_):
+                perm_ = perm_[::-1]
+            spec['fields'] = [f_[j] for j in perm_]
+            classes.append('fields-not-ascending')
     if not tele and not vig and rng.random() < 0.12:
         # field list dominated by a negative field: the maximum field is the largest |field|
         fm = max(f[0] for f in spec['fields'])
@@ -134,6 +147,11 @@ def gen_case(rng, tier, i):
     rr[4] = 0.0
     Px, Py = rr * np.cos(th), rr * np.sin(th)
     Hy = float(rng.choice([0.0, 1.0, -1.0, rng.uniform(-1, 1)]))
+    if vig and rng.random() < 0.6:
+        # exactly one of the entered fields (a field entered with zero factors must be aimed at the full pupil, whatever
+        # the factors of the other fields and whatever the order of entry)
+        fm_ = max(abs(f[0]) for f in spec['fields'])
+        Hy = float(spec['fields'][int(rng.integers(len(spec['fields'])))][0] / fm_)
     wl = float(spec['wavelengths'][int(rng.integers(len(spec['wavelengths'])))][0])
     case = dict(kind='launch', spec=spec, info=info, classes=classes, Hy=Hy, Px=Px.tolist(), Py=Py.tolist(), wl=wl, vig=vig)
     if rng.random() < 0.25:
@@ -250,6 +268,15 @@ def check_sweep(case, rec):
     rec.nontrivial_case()
 
 
+def obj_sag(spec, h):
+    """Sag of the (spherical or flat) object surface at height h."""
+    R = spec.get('obj_radius', 'inf')
+    if R == 'inf':
+        return 0.0
+    R = float(R)
+    return h * h / (R * (1 + math.sqrt(1 - h * h / (R * R))))
+
+
 def check_case(case, rec):
     if case['kind'] == 'dist-sweep':
         return check_sweep(case, rec)
@@ -334,7 +361,8 @@ def check_case(case, rec):
         s = np.hypot(L0[rim], M0[rim])
         rec.check('telecentric-rim-na', bool(np.all(np.abs(s - na) < 1e-12)), resid=float(np.max(np.abs(s - na))), tol=1e-12,
                   msg=f'telecentric object space: rim ray sine {s[:2]} differs from the stated NA {na}')
-        rec.close('origin-height-field', np.stack([x0, y0, z0]), np.stack([np.zeros(n), np.full(n, Hy * fmax), np.full(n, zs[0])]),
+        rec.close('origin-height-field', np.stack([x0, y0, z0]),
+                  np.stack([np.zeros(n), np.full(n, Hy * fmax), np.full(n, zs[0] + obj_sag(spec, Hy * fmax))]),
                   1e-12, scale=scale, msg='telecentric: ray origin is not the field point on the object')
         rec.sample(dict(case=case, record0=dict(y=y0[:3], M=M0[:3])))
         return
@@ -352,8 +380,8 @@ def check_case(case, rec):
     # origin / direction by field type
     if finite and spec['field_type'] == 'object_height':
         rec.close('origin-height-field', np.stack([x0, y0, z0]),
-                  np.stack([np.zeros(n), np.full(n, Hy * fmax), np.full(n, zs[0])]), 1e-12, scale=scale,
-                  msg='ray origin is not the field point on the object')
+                  np.stack([np.zeros(n), np.full(n, Hy * fmax), np.full(n, zs[0] + obj_sag(spec, Hy * fmax))]), 1e-12, scale=scale,
+                  msg='ray origin is not the field point on the object surface')
     if not finite:
         th = math.radians(Hy * fmax)
         same = bool(np.all(np.abs(L0 - L0[0]) < 1e-14) and np.all(np.abs(M0 - M0[0]) < 1e-14))
